@@ -548,6 +548,18 @@ def check_guard(nm, args):
                    v, "SMRTError")
 
 
+def check_alt(nm1, nm2, args, rel):
+    S = by_name()
+    a, b = run(S[nm1].call, args), run(S[nm2].call, args)
+    if isinstance(a, str) or isinstance(b, str):
+        return None if a == b else Finding(f"{S[nm1].module}.{nm1}:alt", f"{nm1}{args} = {a!r} but {nm2}{args} = {b!r}",
+                                           {"check": "alt", "fn": nm1, "fn2": nm2, "args": list(args), "rel": rel}, [str(a), str(b)], "both refuse or both return")
+    if abs(complex(a) - complex(b)) <= rel * abs(complex(b)):
+        return None
+    return Finding(f"{S[nm1].module}.{nm1}:alt", f"{nm1}{args} = {a} differs from the alternative formulation {nm2} = {b}",
+                   {"check": "alt", "fn": nm1, "fn2": nm2, "args": list(args), "rel": rel}, [complex(a), complex(b)], f"equal within {rel} relative")
+
+
 def check_array(nm, ai, rows):
     """when the function accepts an array, the array result equals the scalar results elementwise"""
     sp = by_name()[nm]
@@ -645,6 +657,17 @@ def oracle(ctx, hints, effort):
             if rows:
                 evals += 1
                 keep(check_array(sp.name, ai, rows))
+    # wet ice below the freezing point is outside the domain of the water formula it mixes in: refused, not evaluated
+    for nm in ("wetice_bohren83", "wetice_symmetric"):
+        for T in (FP - 0.5, 260., 240., 200.):
+            for lw in (1e-3, 0.1, 0.5):
+                evals += 1
+                keep(check_guard(nm, (float(rng.choice(FREQS)), T, lw)))
+    # alternative formulations of the same material: the 1971 and 1985 Stogryn brines are the same Debye model with the same parameters
+    for T in T_BRINE_CLOSED:
+        for fq in (0.3e9, 1.4e9, 6.9e9, 19e9, 37e9, 89e9, 200e9):
+            evals += 1
+            keep(check_alt("seawater_stogryn71", "brine_stogryn85", (fq, T), 1e-9))
     for nm in ("wetsnow_tinga73", "wetsnow_wiesmann99", "wetsnow_memls"):
         for T in (FP - 1e-9, FP - 0.1, 260.):
             evals += 1
@@ -669,6 +692,8 @@ def replay(inp, rp=None):
         return check_guard(inp["fn"], tuple(inp["args"]))
     if c == "array":
         return check_array(inp["fn"], inp["ai"], [tuple(r) for r in inp["rows"]])
+    if c == "alt":
+        return check_alt(inp["fn"], inp["fn2"], tuple(inp["args"]), inp["rel"])
     if c == "brine":
         return check_brine(inp["T"])
     if c == "cox":
